@@ -45,6 +45,10 @@ var (
 	// settled HTLC attempt.
 	ErrAttemptAlreadySettled = errors.New("attempt already settled")
 
+	// ErrAttemptAlreadyRegistered is returned if an HTLC attempt with the
+	// same attempt ID is already recorded for the payment.
+	ErrAttemptAlreadyRegistered = errors.New("attempt already registered")
+
 	// ErrAttemptAlreadyFailed is returned if we try to alter an already
 	// failed HTLC attempt.
 	ErrAttemptAlreadyFailed = errors.New("attempt already failed")
